@@ -130,7 +130,8 @@ def run(ctx):
     if gen_protocol != "single":
         ctx.notes.append("the code follows the defective protocol %r: only scenario a is replayed" % gen_protocol)
     rout = os.path.join(ctx.scratch, "replay_out.ndjson")
-    res = ctx.go_test(PKG, FILES, "regprocessor", "^TestVerifLocksReplay$", env={"VERIF_IN": beh_all, "VERIF_OUT": rout}, timeout=3000)
+    res = ctx.go_test(PKG, FILES, "regprocessor", "^TestVerifLocksReplay$", timeout=3000,
+                      env={"VERIF_IN": beh_all, "VERIF_OUT": rout, "VERIF_REPLAY_BUDGET_S": 1500 if gen_protocol == "single" else 60})
     rows = ctx.read_results(rout)
     summ = [x for x in rows if x.get("kind") == "summary"]
     if not summ:
